@@ -224,8 +224,9 @@ def write_adf15(d, exp, path):
         index = index + [{"isel": nb + 1, "cls": "excitation", "upper": nb + 3, "lower": nb + 2, "wavelength_A": 9999.0}]
     if d["header"] == "full":
         s += "C  Configuration        (2S+1)L(w-1/2)   Energy (cm**-1)\nC  --------------------------------------------------------\n"
+        levels = exp.get("levels") or [{"L": 1, "letter": "P"}] * (nb + 4)
         for lev in range(1, nb + 5):
-            s += "C %5d   1S2 %dP1            (2)1( 1.5) %14.1f\n" % (lev, lev, 1000.0 * lev)
+            s += "C %5d   1S2 %dP1            (2)%d( 1.5) %14.1f\n" % (lev, lev, levels[lev - 1]["L"], 1000.0 * lev)
         s += "C\n"
     s += "C  ISEL  WAVELENGTH      TRANSITION            TYPE\n"
     if d.get("rule", True):
@@ -267,7 +268,8 @@ def check_adf15(d, exp, root, bad):
 
     def key(b):
         if hdr == "full":
-            return ("1s2 %dp1 2P1.5" % b["upper"], "1s2 %dp1 2P1.5" % b["lower"])
+            lv = exp.get("levels") or [{"L": 1, "letter": "P"}] * (d["nb"] + 4)
+            return tuple("1s2 %dp1 2%s1.5" % (b[e], lv[b[e] - 1]["letter"]) for e in ("upper", "lower"))
         return (b["upper"], b["lower"])
     cls_name = {"excitation": "excitation", "recombination": "recombination", "thermalcx": "thermalcx"}
     for b in blocks:
